@@ -178,6 +178,7 @@ func (fe *FnExec) localEnv(st *State, old *State) *Env {
 		}
 		env.vars[n] = Binding{st.locals[a], a.Type().(*types.Pointer).Elem()}
 	}
+	fe.bindOrdinalLocals(st, env)
 	return env
 }
 
@@ -698,6 +699,25 @@ func (fe *FnExec) doReturn(st *State, x *ssa.Return) {
 			tags = []string{"support"}
 		}
 		fe.assert(st, t, fmt.Sprintf("ensures#%d", i+1), "ensures", tags, cl.Text, x.Pos())
+	}
+	if len(fe.C.Checks) > 0 {
+		lenv := fe.localEnv(st, fe.entry)
+		for k, v := range env.vars {
+			if _, ok := lenv.vars[k]; !ok || strings.HasPrefix(k, "result") {
+				lenv.vars[k] = v
+			}
+		}
+		for i, cl := range fe.C.Checks {
+			t, err := lenv.evalBool(cl.E)
+			if err != nil {
+				fe.fail("check#%d (%s): %v", i+1, cl.Text, err)
+			}
+			tags := cl.Tags
+			if len(tags) == 0 {
+				tags = []string{"support"}
+			}
+			fe.assert(st, t, fmt.Sprintf("check#%d", i+1), "ensures", tags, cl.Text, x.Pos())
+		}
 	}
 }
 
